@@ -3,7 +3,7 @@ from __future__ import annotations
 
 from props.C09 import TRUSTED_BASE as _TB
 
-LEVEL = "proof"
+LEVEL = "other"  # every clause is a discharged obligation EXCEPT the listed known findings, so this is not claimed as a complete proof
 TRUSTED_BASE = list(_TB)
 ASSUMPTIONS = TRUSTED_BASE + [
     "both ensembles share one tis_set (REPEX_state.initiate_ensembles assigns the same dict), so maxlength0 == maxlength1",
